@@ -195,6 +195,7 @@ func init() {
 	}
 	externals[rt("Tier")] =func(fr *frame, args []value) value { return fr.i.cfg.Tier }
 	externals[rt("Symbolic")] = func(fr *frame, args []value) value { return fr.i.cfg.Concrete == nil }
+	externals[rt("FSPath")] = func(fr *frame, args []value) value { return "/vfs/" + strArg(args[0]) }
 	externals[rt("Settle")] = func(fr *frame, args []value) value { fr.i.settle(); return nil }
 	externals[rt("Advance")] = func(fr *frame, args []value) value {
 		fr.i.advance(fr.i.concInt(args[0]))
@@ -322,6 +323,7 @@ func init() {
 	externals["runtime.GOMAXPROCS"] = func(fr *frame, args []value) value { return 4 }
 
 	initSyncModels()
+	initFSModels()
 	initTimeModels()
 	initErrFmtModels()
 	initBytesModels()
